@@ -8,14 +8,40 @@ S = "bibtexparser.splitter.Splitter."
 NLK, ATK, LBK, RBK, QTK, CMK, EQK = 6, 7, 1, 2, 3, 4, 5
 
 
+from pyvc.api import rec, lemma  # noqa: E402
+
+
+@rec(args={"a": "int", "b": "int"}, ret="int")
+def nls(a, b):
+    """number of newline marks among the marks a .. b-1"""
+    return 0 if b <= a else nls(a, b - 1) + (1 if mk(b - 1) == 6 else 0)
+
+
 @pred
 def scan(self):
+    """the scanner state: cursor in range, a pending mark is one already yielded (and never a newline), the line
+    counter is the number of newline marks consumed (minus one for the newline put in front of the text)"""
     return (0 <= CUR() <= NMARKS() and -1 <= midx(self._unaccepted_mark) < CUR() and midx(self._unaccepted_mark) < NMARKS()
-            and len(self.bibstr) == BLEN())
+            and len(self.bibstr) == BLEN() and self._current_line == nls(0, CUR()) - 1)
+
+
+lemma("nls-run", uses_marks=True, doc="a run of newline marks counts one line each",
+      vars={"a": "int", "b": "int"}, requires=["0 <= a <= b", "only_newlines(a, b)"],
+      ensures="nls(0, b) == nls(0, a) + (b - a)", induction=("b", "a"), props=("C03",))
+
+lemma("nls-monotone", uses_marks=True, doc="the line count never decreases along the marks",
+      vars={"a": "int", "b": "int"}, requires=["0 <= a <= b"],
+      ensures="nls(0, b) >= nls(0, a)", induction=("b", "a"), props=("C03",))
 
 
 @pred
 def only_newlines(a, b):
+    return forall(j, a <= j < b, mk(j) == 6)
+
+
+@rec(args={"a": "int", "b": "int"}, ret="bool", opaque=True)
+def nl_gap(a, b):
+    """only_newlines as an opaque fact (handed from _next_mark to the callers that only pass it on)"""
     return forall(j, a <= j < b, mk(j) == 6)
 
 
@@ -24,6 +50,8 @@ class _:
     """hands back the pending mark if there is one, otherwise the next mark that is not a newline, counting the
     newlines it skips; at the end of the text: None if accept_eof, else BlockAbortedException(end_index = len(text))"""
     uses_marks = True
+    uses_lemmas = ["nls-run"]
+    reveals = ["nl_gap"]
     sorts = {"self": "ref:Splitter", "accept_eof": "bool", "result": "match"}
     requires = {"scan": "scan(self)", "iterator": "not isnone(self._markiter)"}
     loops = {1: {"invariant": {
@@ -31,12 +59,12 @@ class _:
         "range": "old(CUR()) <= CUR() <= NMARKS() and midx(self._unaccepted_mark) == -1 and old(midx(self._unaccepted_mark)) == -1",
         "current": "(midx(m) == -1 and CUR() == NMARKS()) or (midx(m) == CUR() - 1 and midx(m) >= old(CUR()))",
         "skipped": "only_newlines(old(CUR()), CUR() - 1 if midx(m) >= 0 else NMARKS())",
-        "lines": "self._current_line == old(self._current_line) + ((CUR() - 1 if midx(m) >= 0 else NMARKS()) - old(CUR()))",
+        "lines": "self._current_line == old(self._current_line) + ((CUR() - 1 if midx(m) >= 0 else NMARKS()) - old(CUR())) and old(self._current_line) == nls(0, old(CUR())) - 1",
         "cci": "self._current_char_index == old(self._current_char_index)",
     }, "decreases": "NMARKS() - CUR() + (1 if midx(m) >= 0 else 0)", "props": ("C01", "C03", "C04")}}
     ensures = {
         "C04.pending-first": "implies(old(midx(self._unaccepted_mark)) >= 0, midx(result) == old(midx(self._unaccepted_mark)) and CUR() == old(CUR()) and self._current_line == old(self._current_line) and self._current_char_index == ms(midx(result)))",
-        "C02.next-non-newline": "implies(old(midx(self._unaccepted_mark)) == -1 and midx(result) >= 0, old(CUR()) <= midx(result) < NMARKS() and mk(midx(result)) != 6 and only_newlines(old(CUR()), midx(result)) and CUR() == midx(result) + 1 and self._current_char_index == ms(midx(result)))",
+        "C02.next-non-newline": "implies(old(midx(self._unaccepted_mark)) == -1 and midx(result) >= 0, old(CUR()) <= midx(result) < NMARKS() and mk(midx(result)) != 6 and only_newlines(old(CUR()), midx(result)) and nl_gap(old(CUR()), midx(result)) and CUR() == midx(result) + 1 and self._current_char_index == ms(midx(result)))",
         "C03.lines-counted": "implies(old(midx(self._unaccepted_mark)) == -1 and midx(result) >= 0, self._current_line == old(self._current_line) + (midx(result) - old(CUR())))",
         "C01.eof-none": "implies(midx(result) == -1, accept_eof and old(midx(self._unaccepted_mark)) == -1 and only_newlines(old(CUR()), NMARKS()) and CUR() == NMARKS() and self._current_char_index == BLEN() and self._current_line == old(self._current_line) + (NMARKS() - old(CUR())))",
         "C04.pending-cleared": "midx(self._unaccepted_mark) == -1",
@@ -45,7 +73,7 @@ class _:
     }
     raises = {"BlockAbortedException": {
         "when": "not accept_eof and midx(self._unaccepted_mark) == -1 and only_newlines(CUR(), NMARKS())",
-        "ensures": {"C01.eof-abort": "CUR() == NMARKS() and midx(self._unaccepted_mark) == -1 and self._current_char_index == BLEN() and isint(exc.end_index) and ival(exc.end_index) == BLEN() and self._current_line == old(self._current_line) + (NMARKS() - old(CUR()))"}}}
+        "ensures": {"C01.eof-abort": "CUR() == NMARKS() and midx(self._unaccepted_mark) == -1 and self._current_char_index == BLEN() and isint(exc.end_index) and ival(exc.end_index) == BLEN() and self._current_line == old(self._current_line) + (NMARKS() - old(CUR())) and scan(self)"}}}
     modifies = ["@self._unaccepted_mark", "@self._current_char_index", "@self._current_line", "ghost:cur:int"]
 
 
@@ -87,20 +115,160 @@ class _:
     sorts = {"self": "ref:Splitter", "result": "int"}
     requires = {"scan": "scan(self)", "nothing-pending": "midx(self._unaccepted_mark) == -1", "iterator": "not isnone(self._markiter)"}
     loops = {1: {"invariant": {
-        "range": "old(CUR()) <= CUR() <= NMARKS() and midx(self._unaccepted_mark) == -1 and len(self.bibstr) == BLEN() and not isnone(self._markiter)",
+        "range": "old(CUR()) <= CUR() <= NMARKS() and midx(self._unaccepted_mark) == -1 and scan(self) and not isnone(self._markiter)",
         "balance": "num_additional_brackets == bal(old(CUR()), CUR()) and num_additional_brackets >= 0",
         "no-at": "no_block_start(old(CUR()), CUR())",
         "no-close": "no_close_before(old(CUR()), CUR())",
     }, "decreases": "NMARKS() - CUR()", "props": ("C01", "C02", "C04")}}
     ensures = {
         "C02.closing-bracket": "exists(r, old(CUR()) <= r < NMARKS(), mk(r) == 2 and bal(old(CUR()), r) == 0 and no_close_before(old(CUR()), r) and no_block_start(old(CUR()), r) and result == ms(r) and CUR() == r + 1)",
-        "C03.cci": "self._current_char_index == result",
+        "C03.cci": "self._current_char_index == result and scan(self)",
         "C04.nothing-pending": "midx(self._unaccepted_mark) == -1",
     }
     raises = {"BlockAbortedException": {
         "when": None,
         "ensures": {
             "C04.handback-or-eof": "(midx(self._unaccepted_mark) >= 0 and mk(midx(self._unaccepted_mark)) == 7 and CUR() == midx(self._unaccepted_mark) + 1 and no_block_start(old(CUR()), midx(self._unaccepted_mark)) and isint(exc.end_index) and ival(exc.end_index) == ms(midx(self._unaccepted_mark))) or (midx(self._unaccepted_mark) == -1 and CUR() == NMARKS() and no_block_start(old(CUR()), NMARKS()) and isint(exc.end_index) and ival(exc.end_index) == BLEN())",
-            "C04.monotone": "CUR() >= old(CUR())",
+            "C04.monotone": "CUR() >= old(CUR()) and scan(self)",
         }}}
     modifies = ["@self._unaccepted_mark", "@self._current_char_index", "@self._current_line", "ghost:cur:int"]
+
+
+# ---- field values: the quote / brace state machine of _move_to_comma_or_closing_curly_bracket --------------
+# state after the marks k0 .. b-1, started in (q0 = inside quotes, oc0 = open braces outside quotes):
+#   fq  inside a quoted value      foc  braces open outside quotes      fqc  braces open inside the quoted value
+
+@rec(args={"k0": "int", "b": "int", "q0": "bool", "oc0": "int"}, ret="bool")
+def fq(k0, b, q0, oc0):
+    return q0 if b <= k0 else ((not fq(k0, b - 1, q0, oc0)) if (mk(b - 1) == 3 and foc(k0, b - 1, q0, oc0) <= 0 and fqc(k0, b - 1, q0, oc0) <= 0) else fq(k0, b - 1, q0, oc0))
+
+
+@rec(args={"k0": "int", "b": "int", "q0": "bool", "oc0": "int"}, ret="int")
+def foc(k0, b, q0, oc0):
+    return oc0 if b <= k0 else (foc(k0, b - 1, q0, oc0) + 1 if (mk(b - 1) == 1 and not fq(k0, b - 1, q0, oc0)) else (foc(k0, b - 1, q0, oc0) - 1 if (mk(b - 1) == 2 and not fq(k0, b - 1, q0, oc0) and foc(k0, b - 1, q0, oc0) > 0) else foc(k0, b - 1, q0, oc0)))
+
+
+@rec(args={"k0": "int", "b": "int", "q0": "bool", "oc0": "int"}, ret="int")
+def fqc(k0, b, q0, oc0):
+    return 0 if b <= k0 else (fqc(k0, b - 1, q0, oc0) + 1 if (mk(b - 1) == 1 and fq(k0, b - 1, q0, oc0)) else (fqc(k0, b - 1, q0, oc0) - 1 if (mk(b - 1) == 2 and fq(k0, b - 1, q0, oc0) and fqc(k0, b - 1, q0, oc0) > 0) else fqc(k0, b - 1, q0, oc0)))
+
+
+@pred
+def field_stop(k0, j, q0, oc0):
+    """mark j ends the scan for the end of a field value that started at mark k0: a comma or a closing brace outside
+    quotes and braces, or the start of a new block"""
+    return mk(j) == 7 or ((mk(j) == 4 or mk(j) == 2) and not fq(k0, j, q0, oc0) and foc(k0, j, q0, oc0) <= 0)
+
+
+@rec(args={"k0": "int", "b": "int", "q0": "bool", "oc0": "int"}, ret="bool", opaque=True)
+def no_field_stop(k0, b, q0, oc0):
+    """no mark in k0 .. b-1 ends the field value (opaque: only the value scanner's proof opens it)"""
+    return forall(j, k0 <= j < b, not field_stop(k0, j, q0, oc0))
+
+
+lemma("field-state-skips-newlines", uses_marks=True,
+      doc="newline marks do not change the quote / brace state",
+      vars={"k0": "int", "a": "int", "b": "int", "q0": "bool", "oc0": "int"},
+      requires=["k0 <= a <= b", "only_newlines(a, b)"],
+      ensures="fq(k0, b, q0, oc0) == fq(k0, a, q0, oc0) and foc(k0, b, q0, oc0) == foc(k0, a, q0, oc0) and fqc(k0, b, q0, oc0) == fqc(k0, a, q0, oc0)",
+      induction=("b", "a"), props=("C02",))
+
+
+@contract(S + "_move_to_comma_or_closing_curly_bracket")
+class _:
+    """scans to the end of a field value: the first comma or closing brace that is outside quotes and outside
+    braces (a quote inside braces, and braces inside quotes, do not count); that mark is handed back and its start
+    returned.  A new '@block{' aborts (handed back, end_index = its start); so does the end of the text."""
+    uses_marks = True
+    uses_lemmas = ["field-state-skips-newlines"]
+    reveals = ["no_field_stop"]
+    sorts = {"self": "ref:Splitter", "currently_quote_escaped": "bool", "num_open_curls": "int", "result": "int"}
+    requires = {"scan": "scan(self)", "nothing-pending": "midx(self._unaccepted_mark) == -1", "iterator": "not isnone(self._markiter)",
+                "curls": "num_open_curls >= 0"}
+    loops = {1: {"invariant": {
+        "range": "old(CUR()) <= CUR() <= NMARKS() and midx(self._unaccepted_mark) == -1 and scan(self) and not isnone(self._markiter)",
+        "state": "currently_quote_escaped == fq(old(CUR()), CUR(), old(currently_quote_escaped), old(num_open_curls)) and num_open_curls == foc(old(CUR()), CUR(), old(currently_quote_escaped), old(num_open_curls)) and num_quoted_curls == fqc(old(CUR()), CUR(), old(currently_quote_escaped), old(num_open_curls))",
+        "nonneg": "num_open_curls >= 0 and num_quoted_curls >= 0",
+        "no-stop": "no_field_stop(old(CUR()), CUR(), old(currently_quote_escaped), old(num_open_curls))",
+    }, "decreases": "NMARKS() - CUR()", "props": ("C01", "C02", "C04")}}
+    ensures = {
+        "C02.field-end": "exists(r, old(CUR()) <= r < NMARKS(), (mk(r) == 4 or mk(r) == 2) and field_stop(old(CUR()), r, currently_quote_escaped, num_open_curls) and no_field_stop(old(CUR()), r, currently_quote_escaped, num_open_curls) and no_block_start(old(CUR()), r) and result == ms(r) and CUR() == r + 1 and midx(self._unaccepted_mark) == r)",
+        "C03.cci": "self._current_char_index == result and scan(self)",
+    }
+    raises = {
+        "ParserStateException": {"when": "num_open_curls > 0 and currently_quote_escaped", "ensures": {"C04.untouched": "CUR() == old(CUR()) and midx(self._unaccepted_mark) == -1"}},
+        "BlockAbortedException": {
+        "when": None,
+        "ensures": {
+            "C04.handback-or-eof": "(midx(self._unaccepted_mark) >= 0 and mk(midx(self._unaccepted_mark)) == 7 and CUR() == midx(self._unaccepted_mark) + 1 and no_field_stop(old(CUR()), midx(self._unaccepted_mark), currently_quote_escaped, num_open_curls) and no_block_start(old(CUR()), midx(self._unaccepted_mark)) and isint(exc.end_index) and ival(exc.end_index) == ms(midx(self._unaccepted_mark))) or (midx(self._unaccepted_mark) == -1 and CUR() == NMARKS() and no_field_stop(old(CUR()), NMARKS(), currently_quote_escaped, num_open_curls) and no_block_start(old(CUR()), NMARKS()) and isint(exc.end_index) and ival(exc.end_index) == BLEN())",
+            "C04.monotone": "CUR() >= old(CUR()) and scan(self)",
+        }}}
+    modifies = ["@self._unaccepted_mark", "@self._current_char_index", "@self._current_line", "ghost:cur:int"]
+
+
+# ---- the entry scanner ----------------------------------------------------------------------------------------
+# ghost arrays written by ghost code when a Field is appended: for the i-th field of the entry being read,
+#   fe[i] its '=' mark, fr[i] the mark that ends its value, fks[i] the text index where its key starts
+
+@pred
+def field_at(f, self, e, r, ks):
+    """f was cut from the text at the '=' mark e and the end-of-value mark r found by the field-value scanner (the
+    first mark that ends the value): its
+    value is the stripped text between them, its key the stripped text from ks to the '=', its line the line of
+    the '='"""
+    return (0 <= e < r < NMARKS() and mk(e) == 5 and (mk(r) == 4 or mk(r) == 2)
+            and field_stop(e + 1, r, False, 0) and no_field_stop(e + 1, r, False, 0)
+            and isstr(f._value) and sval(f._value) == self.bibstr[me(e):ms(r)].strip()
+            and isint(f._start_line) and ival(f._start_line) == nls(0, e) - 1
+            and 0 <= ks <= ms(e) and f._key == self.bibstr[ks:ms(e)].strip())
+
+
+@pred
+def key_start_ok(i, first_key_start):
+    """the key of field 0 starts where the entry body starts; the key of a later field starts at the end of the comma
+    that ended the previous value, and only newline marks lie between that comma and the field's '='"""
+    return ((i == 0 and ghost('fks', 0) == first_key_start)
+            or (i > 0 and mk(ghost('fr', i - 1)) == 4 and ghost('fks', i) == me(ghost('fr', i - 1)) and ghost('fr', i - 1) < ghost('fe', i)
+                and nl_gap(ghost('fr', i - 1) + 1, ghost('fe', i))))
+
+
+@contract(S + "_move_to_end_of_entry")
+class _:
+    """reads `key = value` fields up to the '}' that closes the entry: returns the fresh Field objects in source
+    order, the end of that '}' and the keys seen more than once; anything else aborts the block with the offending
+    mark handed back (end_index = its start) or at the end of the text"""
+    uses_marks = True
+    uses_lemmas = ["nls-run"]
+    sorts = {"self": "ref:Splitter", "first_key_start": "int", "result": "tuple:list:ref:Field,int,set:str"}
+    requires = {"scan": "scan(self)", "nothing-pending": "midx(self._unaccepted_mark) == -1", "iterator": "not isnone(self._markiter)",
+                "key-start": "CUR() >= 1 and first_key_start == me(CUR() - 1)"}
+    locals = {"result": "list:ref:Field", "keys": "set:str", "duplicate_keys": "set:str"}
+    ghost_code = [("result.append(", [("fe", "len(result) - 1", "midx(equals_mark)"),
+                                      ("fr", "len(result) - 1", "midx(self._unaccepted_mark)"),
+                                      ("fks", "len(result) - 1", "key_start")])]
+    loops = {1: {"invariant": {
+        "range": "old(CUR()) <= CUR() <= NMARKS() and scan(self) and not isnone(self._markiter)",
+        "pending": "midx(self._unaccepted_mark) == -1 or (mk(midx(self._unaccepted_mark)) == 2 and midx(self._unaccepted_mark) == CUR() - 1 and midx(self._unaccepted_mark) >= old(CUR()))",
+        "fresh": "fresh(result) and fresh(keys) and fresh(duplicate_keys) and forall(i, 0 <= i < len(result), fresh(result[i]) and allocated(result[i]))",
+        "f1": "forall(i, 0 <= i < len(result), 0 <= ghost('fe', i) < ghost('fr', i) < NMARKS() and mk(ghost('fe', i)) == 5 and (mk(ghost('fr', i)) == 4 or mk(ghost('fr', i)) == 2))",
+        "f2": "forall(i, 0 <= i < len(result), field_stop(ghost('fe', i) + 1, ghost('fr', i), False, 0))",
+        "f3": "forall(i, 0 <= i < len(result), no_field_stop(ghost('fe', i) + 1, ghost('fr', i), False, 0))",
+        "f4": "forall(i, 0 <= i < len(result), isstr(result[i]._value) and sval(result[i]._value) == self.bibstr[me(ghost('fe', i)):ms(ghost('fr', i))].strip())",
+        "f5": "forall(i, 0 <= i < len(result), isint(result[i]._start_line) and ival(result[i]._start_line) == nls(0, ghost('fe', i)) - 1)",
+        "f6": "forall(i, 0 <= i < len(result), 0 <= ghost('fks', i) <= ms(ghost('fe', i)) and result[i]._key == self.bibstr[ghost('fks', i):ms(ghost('fe', i))].strip())",
+        "fields-range": "forall(i, 0 <= i < len(result), old(CUR()) <= ghost('fe', i) and ghost('fr', i) < CUR())",
+        "fields-keys": "forall(i, 0 <= i < len(result), key_start_ok(i, first_key_start))",
+        "key-start": "0 <= key_start <= BLEN() and (midx(self._unaccepted_mark) >= 0 or (len(result) == 0 and key_start == first_key_start) or (len(result) > 0 and ghost('fr', len(result) - 1) == CUR() - 1 and mk(CUR() - 1) == 4 and key_start == me(CUR() - 1)))",
+        "no-at": "no_block_start(old(CUR()), CUR())",
+    }, "decreases": "2 * (NMARKS() - CUR()) + (1 if midx(self._unaccepted_mark) >= 0 else 0)", "props": ("C01", "C02", "C03", "C04")}}
+    ensures = {
+        "C02.closed": "exists(r, old(CUR()) <= r < NMARKS(), mk(r) == 2 and CUR() == r + 1 and result[1] == me(r)) and midx(self._unaccepted_mark) == -1 and scan(self)",
+        "C02.fields": "fresh(result[0]) and fresh(result[2]) and forall(i, 0 <= i < len(result[0]), fresh(result[0][i]) and field_at(result[0][i], self, ghost('fe', i), ghost('fr', i), ghost('fks', i)) and old(CUR()) <= ghost('fe', i) and ghost('fr', i) < CUR() and key_start_ok(i, first_key_start))",
+        "C04.no-at-consumed": "no_block_start(old(CUR()), CUR())",
+    }
+    raises = {"BlockAbortedException": {
+        "when": None,
+        "ensures": {
+            "C04.handback-or-eof": "scan(self) and ((midx(self._unaccepted_mark) >= old(CUR()) and CUR() == midx(self._unaccepted_mark) + 1 and no_block_start(old(CUR()), midx(self._unaccepted_mark)) and isint(exc.end_index) and ival(exc.end_index) == ms(midx(self._unaccepted_mark))) or (midx(self._unaccepted_mark) == -1 and CUR() == NMARKS() and no_block_start(old(CUR()), NMARKS()) and isint(exc.end_index) and ival(exc.end_index) == BLEN()))",
+        }}}
+    modifies = ["@self._unaccepted_mark", "@self._current_char_index", "@self._current_line", "ghost:cur:int", "ghost:fe:arr", "ghost:fr:arr", "ghost:fks:arr"]
